@@ -184,8 +184,8 @@ func runC20(c *core.Ctx) error {
 			c.Nontrivial("num:" + strings.Join(cs.Text, ""))
 		}
 	}
-	if kinds["pair"] != 17*17 || kinds["vocab"] != 1 || kinds["number"] == 0 {
-		return fmt.Errorf("TLC emitted %v cases; expected 289 pairs, 1 vocabulary record and number literals", kinds)
+	if kinds["pair"] != 18*18 || kinds["vocab"] != 1 || kinds["number"] == 0 {
+		return fmt.Errorf("TLC emitted %v cases; expected 324 pairs, 1 vocabulary record and number literals", kinds)
 	}
 	c.Set("cases_by_kind", kinds)
 	c.Set("exhaustive", true)
@@ -194,8 +194,8 @@ func runC20(c *core.Ctx) error {
 	if err := runObjHistories(c, objKinds["guess"], objPairs([]string{"1e2", "5E-1", "1.0", "3.00", "0.0", "-4.0", "1.5", "42", "\"a\"", "true", "null", "1", "\"1e5\"", "1.50", "-0", "x", "\"\\\\\""}, c.Pick(34, 120), c.Seed)); err != nil {
 		return err
 	}
-	c.Set("rule", "every state of TypeVocab.tla: all 17x17 type pairs with the expected soft equality, every accepted number text up to MaxLen with its expected kind, one vocabulary record (valid names, near misses, scalar set, token types, non-number literals); each replayed (GuessSchemaType 60x per literal and compared with the scanner's classifier)")
-	c.Assume = append(c.Assume, "the internal 'comment' type is outside the domain in both directions", "IsScalar of mixed/any is not judged")
+	c.Set("rule", "every state of TypeVocab.tla: all 18x18 type pairs (16 types, the undefined type and the internal comment type) with the expected soft equality, every accepted number text up to MaxLen with its expected kind, one vocabulary record (valid names, near misses, scalar set, token types, non-number literals); each replayed (GuessSchemaType 60x per literal and compared with the scanner's classifier)")
+	c.Assume = append(c.Assume, "the internal 'comment' type takes part in the soft-equality pairs only", "IsScalar of mixed/any is not judged")
 	return nil
 }
 
